@@ -234,6 +234,14 @@ Fixpoint pop_n (n : nat) (r : ring ackpt) : Res (ring ackpt) :=
   | O => Ok r
   | S k => x <- rb_pop ackpt0 r ;; pop_n k (snd x)
   end.
+(* the trailing loop of chooseA0Point, `for k := 0; k < b.a0Candidates.Len()-1; k++ { PopFront() }`: Len() is
+   re-evaluated on every iteration while the pops shrink it, so the loop stops when k reaches the remaining
+   length - 1 (about half of the candidates stay), not after Len-1 pops.  Modelled as the code is. *)
+Fixpoint pop_while (fuel : nat) (k : Z) (r : ring ackpt) : Res (ring ackpt) :=
+  match fuel with
+  | O => Panic 99
+  | S f => if k <? Z.of_nat (rb_len r) - 1 then x <- rb_pop ackpt0 r ;; pop_while f (k + 1) (snd x) else Ok r
+  end.
 Definition choose_a0 (r : ring ackpt) (tot : Z) : Res (option ackpt * ring ackpt) :=
   if rb_empty r then Ok (None, r) else
   if (rb_len r =? 1)%nat then i <- rb_front r ;; Ok (Some (rb_get ackpt0 r i), r) else
@@ -243,7 +251,7 @@ Definition choose_a0 (r : ring ackpt) (tot : Z) : Res (option ackpt * ring ackpt
               r' <- pop_n (Z.to_nat (i - 1)) r ;;
               Ok (Some (rb_get ackpt0 r j), r')
   | None => j <- rb_back r ;;
-            r' <- pop_n (rb_len r - 1) r ;;
+            r' <- pop_while (S (rb_len r)) 0 r ;;
             Ok (Some (rb_get ackpt0 r j), r')
   end.
 
@@ -418,6 +426,51 @@ Definition calc_pacing_rate (P : prof) (best : Z) (pg : f64) (atFull : bool) (pr
 Definition sum_bytes (l : list (Z * Z)) : Z := fold_left (fun a p => a + snd p) l 0.
 Definition is_nil {A} (l : list A) : bool := match l with [] => true | _ => false end.
 
+(* checkIfFullBandwidthReached, called when isRoundStart && !isAtFullBandwidth:
+   (isAtFullBandwidth, roundsWithoutBandwidthGain, bandwidthAtLastRound, ResetMaxAckHeightTracker called) *)
+Definition check_full_bw (P : prof) (lsal : bool) (rng balr best nle blr : Z) (ls : sts) : bool * Z * Z * bool :=
+  if lsal then (false, rng, balr, false) else
+  let target := to_uint64 (fmul (of_Z balr) growth_target) in
+  if target <=? best then (false, 0, best, p_expireAckAgg P)
+  else
+    let rng' := i64w (rng + 1) in
+    ((p_numStartupRtts P <=? rng') || exit_startup_due_to_loss nle blr ls, rng', balr, false).
+
+(* the gain / mode part of the state machine: (mode, pacingGain, congestionWindowGain, cycleCurrentOffset, lastCycleStart) *)
+Definition gstate : Type := (Z * f64 * f64 * Z * Z)%type.
+
+(* maybeExitStartupOrDrain; `low` = bytesInFlight <= getTargetCongestionWindow(1) *)
+Definition exit_startup_or_drain (P : prof) (g : gstate) (full low : bool) (rnd now : Z) : Res gstate :=
+  let '(md, pg, cg, off, lcs) := g in
+  let g1 := if (md =? c12_modeStartup) && full
+            then (c12_modeDrain, p_drainGain P, p_highCwndGain P, off, lcs) else g in
+  let '(md1, pg1, cg1, off1, lcs1) := g1 in
+  if (md1 =? c12_modeDrain) && low
+  then e <- enter_probe_bw rnd ;; Ok (c12_modeProbeBw, snd e, p_cwndGainConst P, fst e, now)
+  else Ok g1.
+
+(* maybeEnterOrExitProbeRtt (without its last statement, exitingQuiescence = false):
+   (gstate, exitProbeRttAt, probeRttRoundPassed, minRttTimestamp, sampler.OnAppLimited called);
+   `small` = bytesInFlight < probeRttCongestionWindow() + MaxPacketBufferSize *)
+Definition enter_exit_probe_rtt (P : prof) (g : gstate) (full expired exitingQ isRoundStart small : bool)
+           (exitAt : Z) (rp : bool) (minRttTs rnd now : Z) : Res (gstate * Z * bool * Z * bool) :=
+  let '(md, pg, cg, off, lcs) := g in
+  let enter := expired && negb exitingQ && negb (md =? c12_modeProbeRtt) in
+  let g1 := if enter then (c12_modeProbeRtt, f_one, cg, off, lcs) else g in
+  let exitAt1 := if enter then 0 else exitAt in
+  if fst (fst (fst (fst g1))) =? c12_modeProbeRtt then
+    if exitAt1 =? 0 then
+      if small then Ok (g1, i64w (now + c12_probeRttTimeNs), false, minRttTs, true)
+      else Ok (g1, exitAt1, rp, minRttTs, true)
+    else
+      let rp1 := if isRoundStart then true else rp in
+      if (0 <=? i64w (now - exitAt1)) && rp1 then
+        if negb full then Ok ((c12_modeStartup, p_highGain P, p_highCwndGain P, off, lcs), exitAt1, rp1, now, true)
+        else e <- enter_probe_bw rnd ;;
+             Ok ((c12_modeProbeBw, snd e, p_cwndGainConst P, fst e, now), exitAt1, rp1, now, true)
+      else Ok (g1, exitAt1, rp1, minRttTs, true)
+  else Ok (g1, exitAt1, rp, minRttTs, false).
+
 (* OnCongestionEventEx(priorInFlight, eventTime, ackedPackets, lostPackets) *)
 Definition f_cong (P : prof) (st : fstate) (now prior rttMin rnd : Z) (acked lost : list (Z * Z)) : Res fstate :=
   let w := fw st in let m := fm st in let s := fs st in
@@ -449,7 +502,7 @@ Definition f_cong (P : prof) (st : fstate) (now prior rttMin rnd : Z) (acked los
                 then wf_update 0 cmp_max (m_maxBw m) (ce_maxBw ce) (roundCount w1) else m_maxBw m in
   let mr := if negb (ce_rtt ce =? infRTT) then maybe_update_min_rtt (m_minRtt m) (m_minRttTs m) now (ce_rtt ce)
             else (m_minRtt m, m_minRttTs m, false) in
-  let '(minRtt1, minRttTs1, expired) := mr in
+  let minRtt1 := fst (fst mr) in let minRttTs1 := snd (fst mr) in let expired := snd mr in
   let bytesLost := i64w (sm_totalLost s1 - tLbefore) in
   let excess := ce_extra ce in
   let nle := if hasLosses then u64w (m_numLossEv m + 1) else m_numLossEv m in
@@ -462,50 +515,25 @@ Definition f_cong (P : prof) (st : fstate) (now prior rttMin rnd : Z) (acked los
          then update_gain_cycle (p_drainToTarget P) (m_pacingGain m) (m_cycleOff m) (m_lastCycleStart m) now prior
                                 hasLosses (inflight w1) rtt1 tgt
          else Ok (m_pacingGain m, m_cycleOff m, m_lastCycleStart m)) ;;
-  let '(pg1, off1, lcs1) := gc in
-  (* STARTUP / DRAIN: checkIfFullBandwidthReached: (isAtFullBandwidth, roundsWithoutBandwidthGain, bandwidthAtLastRound, sampler) *)
-  let fb := if isRoundStart && negb (atFullBw w1) then
-              if lsal then (false, m_roundsNoGain m, m_bwAtLastRound m, s1) else
-              let target := to_uint64 (fmul (of_Z (m_bwAtLastRound m)) growth_target) in
-              if target <=? best1 then
-                (false, 0, best1, if p_expireAckAgg P then sm_reset_tracker s1 0 (roundCount w1) else s1)
-              else
-                let rng := i64w (m_roundsNoGain m + 1) in
-                ((p_numStartupRtts P <=? rng) || exit_startup_due_to_loss nle blr ls, rng, m_bwAtLastRound m, s1)
-            else (atFullBw w1, m_roundsNoGain m, m_bwAtLastRound m, s1) in
-  let '(full1, rng1, balr1, s2) := fb in
-  (* maybeExitStartupOrDrain *)
-  let md1 := if (mode w1 =? c12_modeStartup) && full1
-             then (c12_modeDrain, p_drainGain P, p_highCwndGain P) else (mode w1, pg1, m_cwndGain m) in
-  let '(mode1, pg2, cg2) := md1 in
-  pb <- (if (mode1 =? c12_modeDrain) && (inflight w1 <=? tgt f_one)
-         then e <- enter_probe_bw rnd ;; Ok (c12_modeProbeBw, snd e, p_cwndGainConst P, fst e, now)
-         else Ok (mode1, pg2, cg2, off1, lcs1)) ;;
-  let '(mode2, pg3, cg3, off2, lcs2) := pb in
-  (* maybeEnterOrExitProbeRtt *)
-  let pr0 := if expired && negb (m_exitingQuiescence m) && negb (mode2 =? c12_modeProbeRtt)
-             then (c12_modeProbeRtt, f_one, 0) else (mode2, pg3, m_exitProbeRttAt m) in
-  let '(mode3, pg4, exitAt0) := pr0 in
-  prr <- (if mode3 =? c12_modeProbeRtt then
-            let s3 := sm_app_limited s2 in
-            if exitAt0 =? 0 then
-              if inflight w1 <? i64w (minCW w1 + c12_MaxPacketBufferSize)
-              then Ok (mode3, pg4, cg3, off2, lcs2, i64w (now + c12_probeRttTimeNs), false, minRttTs1, s3)
-              else Ok (mode3, pg4, cg3, off2, lcs2, exitAt0, m_probeRttRoundPassed m, minRttTs1, s3)
-            else
-              let rp := if isRoundStart then true else m_probeRttRoundPassed m in
-              if (0 <=? i64w (now - exitAt0)) && rp then
-                if negb full1 then Ok (c12_modeStartup, p_highGain P, p_highCwndGain P, off2, lcs2, exitAt0, rp, now, s3)
-                else e <- enter_probe_bw rnd ;;
-                     Ok (c12_modeProbeBw, snd e, p_cwndGainConst P, fst e, now, exitAt0, rp, now, s3)
-              else Ok (mode3, pg4, cg3, off2, lcs2, exitAt0, rp, minRttTs1, s3)
-          else Ok (mode3, pg4, cg3, off2, lcs2, exitAt0, m_probeRttRoundPassed m, minRttTs1, s2)) ;;
-  let '(mode4, pg5, cg4, off3, lcs3, exitAt1, rp1, minRttTs2, s4) := prr in
+  let g0 : gstate := (mode w1, fst (fst gc), m_cwndGain m, snd (fst gc), snd gc) in
+  (* STARTUP / DRAIN: checkIfFullBandwidthReached *)
+  let fb := if isRoundStart && negb (atFullBw w1)
+            then check_full_bw P lsal (m_roundsNoGain m) (m_bwAtLastRound m) best1 nle blr ls
+            else (atFullBw w1, m_roundsNoGain m, m_bwAtLastRound m, false) in
+  let full1 := fst (fst (fst fb)) in let rng1 := snd (fst (fst fb)) in let balr1 := snd (fst fb) in
+  let s2 := if snd fb then sm_reset_tracker s1 0 (roundCount w1) else s1 in
+  (* maybeExitStartupOrDrain, maybeEnterOrExitProbeRtt *)
+  g2 <- exit_startup_or_drain P g0 full1 (inflight w1 <=? tgt f_one) rnd now ;;
+  pr <- enter_exit_probe_rtt P g2 full1 expired (m_exitingQuiescence m) isRoundStart
+                             (inflight w1 <? i64w (minCW w1 + c12_MaxPacketBufferSize))
+                             (m_exitProbeRttAt m) (m_probeRttRoundPassed m) minRttTs1 rnd now ;;
+  let '(g3, exitAt1, rp1, minRttTs2, appl) := pr in
+  let '(mode4, pg5, cg4, off3, lcs3) := g3 in
+  let s4 := if appl then sm_app_limited s2 else s2 in
   (* calculatePacingRate / calculateCongestionWindow / calculateRecoveryWindow *)
   let bytesAcked := i64w (sm_totalAcked s4 - tAbefore) in
   cp <- calc_pacing_rate P best1 pg5 full1 (m_pacingRate m) (m_detectOvershooting m) (m_bytesLostOvershoot m) hnas
                          (initCW w1) (cwndMinPacing w1) rttMin bytesLost ;;
-  let '(prate, det1, blo1) := cp in
   let w2 := set_mode w1 mode4 full1 in
   let w3 := calc_cwnd w2 (p_enableAckAgg P) (tgt cg4) (sm_max_ack_height s4) excess bytesAcked (sm_totalAcked s4) in
   let w4 := calc_recovery w3 bytesAcked bytesLost in
@@ -517,7 +545,8 @@ Definition f_cong (P : prof) (st : fstate) (now prior rttMin rnd : Z) (acked los
   let nle' := if isRoundStart then 0 else nle in
   let blr' := if isRoundStart then 0 else blr in
   Ok (mkF w4
-          (mkM nle' blr' maxBw1 minRtt1 minRttTs2 prate pg5 cg4 off3 lcs3 rng1 balr1 false exitAt1 rp1 lsal hnas det1 blo1)
+          (mkM nle' blr' maxBw1 minRtt1 minRttTs2 (fst (fst cp)) pg5 cg4 off3 lcs3 rng1 balr1 false exitAt1 rp1 lsal hnas
+               (snd (fst cp)) (snd cp))
           (fpc st) s5).
 
 (* OnPacketSent(sentTime, bytesInFlight, packetNumber, bytes, isRetransmittable) *)
